@@ -466,8 +466,8 @@ def random_bytes(tier, seed, n=None):
     out = []
     for i in range(n):
         a = ans(ccp=1, ma=5, etag=1, fr=r.randrange(0, 6), body=r.choice([0, 1, 2, 3, 6, 6, 6, 4]), hop=r.randrange(0, 3), age=r.choice([NONE, 3]),
-                st=r.choice([200, 200, 203, 404, 410, 301]))
-        a304 = ans(k="304", st=304, ccp=1, ma=50, etag=1, upd=1, hop=r.randrange(0, 3))
+                st=r.choice([200, 200, 203, 404, 410, 301]), dfmt=r.choice([0, 1, 2]))   # any of the three HTTP-date formats
+        a304 = ans(k="304", st=304, ccp=1, ma=50, etag=1, upd=1, hop=r.randrange(0, 3), dfmt=r.choice([0, 0, 1, 2]))
         if i % 2 == 1:
             a["swr"] = 60  # the stale serve happens under stale-while-revalidate; the caller reads the body late
         steps = [{"op": "req", "rq": rq(), "ans": [a]}, {"op": "tick", "d": 2}, {"op": "req", "rq": rq(), "ans": []},
@@ -531,6 +531,11 @@ def concurrent(tier, seed, n=None):
                 if c < 0.12:
                     par.append({"op": "req", "rq": rq(u=r.choice([0, 1]), m=r.choice(["POST", "DELETE", "X-UNKNOWN"])),
                                 "ans": [ans(st=200, ccp=0, etag=0)]})
+                elif c < 0.22:
+                    # answered by the cache itself (504): nothing is stored for that resource, or the method is never served
+                    # from the store; such replies are the caller's own as much as any other
+                    par.append({"op": "req", "rq": rq(u=r.choice([2, 2, 0]), m=r.choice(["GET", "GET", "HEAD"]), fl=["only-if-cached"]),
+                                "ans": [ans(ccp=1, ma=60, etag=2)]})
                 else:
                     lat = r.choice([0, 0, 0, 1, 2])
                     va = ans(k="304", st=304, ccp=1, ma=50, etag=1, upd=1, lat=lat, hop=r.choice([0, 0, 1, 2])) if r.random() < 0.5 \
@@ -697,6 +702,13 @@ def kv_cuts(tier, seed, n=None):
                     {"op": "set_slow", "k": 0, "v": 1, "how": point}, {"op": "get", "k": 0}, {"op": "keys", "p": -1},
                     {"op": "reopen"}, {"op": "get", "k": 0}, {"op": "set", "k": 0, "v": 0}, {"op": "get", "k": 0}]
                 out.append({"id": "slow/%s-%d-%s" % (be, prev, point.replace(":", "")), "backend": be, "keys": keys, "vals": vals, "ops": ops})
+            for rep in range(3 if tier == "quick" else 12):
+                i += 1
+                vals = [{"len": 33, "seed": 5}, {"len": 1 << 20, "seed": 3000 + i}]
+                ops = ([{"op": "set", "k": 0, "v": 0}] if prev else []) + [
+                    {"op": "set_slow", "k": 0, "v": 1, "how": "tiny"}, {"op": "get", "k": 0}, {"op": "keys", "p": -1},
+                    {"op": "reopen"}, {"op": "get", "k": 0}, {"op": "set", "k": 0, "v": 0}, {"op": "get", "k": 0}]
+                out.append({"id": "slow/%s-%d-tiny%d" % (be, prev, rep), "backend": be, "keys": keys, "vals": vals, "ops": ops})
     return out + kv_stress(tier)
 
 
@@ -713,6 +725,9 @@ def kv_stress(tier):
             if be != "mem":   # the writers go through two handles on the same directory
                 out.append({"id": "stress2/%s-%d-%d" % (be, dele, i), "backend": be, "keys": [key], "vals": vals,
                             "ops": [{"op": "stress", "k": 0, "n": 4, "p": dele, "how": "two", "cut": 250 if tier == "quick" else 1500},
+                                    {"op": "set", "k": 0, "v": 2}, {"op": "get", "k": 0}]})
+                out.append({"id": "stressm/%s-%d-%d" % (be, dele, i), "backend": be, "keys": [key], "vals": vals,
+                            "ops": [{"op": "stress", "k": 0, "n": 4, "p": dele, "how": "mtime", "cut": 250 if tier == "quick" else 1500},
                                     {"op": "set", "k": 0, "v": 2}, {"op": "get", "k": 0}]})
     return out
 
